@@ -325,7 +325,9 @@ func refEncodeMsg(c msgCfg, mti string, content map[int]string) ([]byte, bool) {
 	ref := newRef(c.bl, c.auto)
 	ids := make([]int, 0, len(content))
 	for id := range content {
-		ids = append(ids, id)
+		if c.travels(id) {
+			ids = append(ids, id)
+		}
 	}
 	sort.Ints(ids)
 	for _, id := range ids {
@@ -425,6 +427,9 @@ func verifyPacked(rep *Reporter, c msgCfg, mti string, content map[int]string, p
 		}
 		return true
 	}
+	if _, dropped := c.travelling(content); dropped && err != nil {
+		return true // refusing an element that can not travel is as good as leaving it out
+	}
 	if err != nil {
 		rep.Viol("Pack fails although every populated field is representable", line, err.Error())
 		return false
@@ -471,8 +476,8 @@ func checkMsgPack(rep *Reporter, c msgCfg, mti string, content map[int]string) {
 				got[id] = s
 			}
 		}
-		if fmt.Sprint(got) != fmt.Sprint(content) {
-			rep.Viol("Unpack of the packed message does not visit exactly the populated fields", line, fmt.Sprintf("unpacked %v, populated %v", got, content))
+		if body, _ := c.travelling(content); fmt.Sprint(got) != fmt.Sprint(body) {
+			rep.Viol("Unpack of the packed message does not visit exactly the populated fields", line, fmt.Sprintf("unpacked %v, populated %v", got, body))
 		}
 	})
 }
@@ -994,8 +999,37 @@ func genCfg(r *gen.Rng, fixedSmall bool) msgCfg {
 	if !c.auto && r.Intn(4) == 0 {
 		add(B + 1) // a continuation *position* is an ordinary element of a fixed bitmap that can not hold it
 	}
+	if c.auto && r.Intn(4) == 0 {
+		// elements DEFINED at continuation-bit positions of an expanding bitmap: the bit is the
+		// continuation bit, so the element can not travel - the library leaves it out of bitmap
+		// and body (message_test.go pins that); whatever is populated besides, the packed bitmap
+		// must still be the minimal chain for the elements in the body
+		for _, id := range []int{B + 1, 2*B + 1, 3*B + 1} {
+			if r.Intn(2) == 0 && !seen[id] {
+				seen[id] = true
+				c.ids = append(c.ids, id)
+			}
+		}
+	}
 	sort.Ints(c.ids)
 	return c
+}
+
+// travels: false for an element at a continuation-bit position of an expanding bitmap
+func (c msgCfg) travels(id int) bool {
+	return !(c.auto && id%(effLen(c.bl)*8) == 1)
+}
+
+func (c msgCfg) travelling(content map[int]string) (out map[int]string, dropped bool) {
+	out = map[int]string{}
+	for id, v := range content {
+		if c.travels(id) {
+			out[id] = v
+		} else {
+			dropped = true
+		}
+	}
+	return out, dropped
 }
 
 func genContentC05(r *gen.Rng, c msgCfg, maxFields int) map[int]string {
